@@ -609,6 +609,7 @@ def hand_of(h, p):
 
 @contract('bridge_env.playing_phase.PlayingPhaseWithHands.__init__', props=['C05', 'C11'])
 class _wh_init:
+    at_calls = 'inline'      # the new object aliases the `hands` argument
     params = dict(contract=ContractS, hands=HandsShape)
     raises = {Exception: 'iff', AssertionError: 'iff'}
     check_inv = False
@@ -690,6 +691,7 @@ class _:
 
 @contract('bridge_env.playing_phase.ObservedPlayingPhase.__init__', props=['C05', 'C11'])
 class _ob_init:
+    at_calls = 'inline'      # the new object aliases the `hand` argument
     params = dict(contract=ContractS, player=Enum(Player), hand=CardSet())
     raises = {Exception: 'iff', AssertionError: 'iff'}
 
